@@ -350,11 +350,13 @@ class Simplifier(pysmt.walkers.DagWalker):
             elif x.is_minus():
                 to_sum.append(x.arg(0))
                 to_sub.append(x.arg(1))
-            elif x.is_times() and x.args()[-1].is_constant():
-                const = x.args()[-1]
+            elif x.is_times() and any(a.is_constant() for a in x.args()):
+                # The factors of a simplified product are sorted by node id:
+                # the constant factor can be at any position
+                const = [a for a in x.args() if a.is_constant()][-1]
                 const_val = cast(Union[int, Fraction], const.constant_value())
                 if const_val < 0:
-                    new_times_args = list(x.args()[:-1])
+                    new_times_args = [a for a in x.args() if a is not const]
                     if const_val != -1:
                         const_val = -const_val
                         if const.is_algebraic_constant():
